@@ -1,15 +1,25 @@
 """C16 - a server pins one username per connection and caps failed attempts.
 
 Tested side: server-mode Transport + RecordingServer with a generated verdict per method.
-A raw puppet client sends a generated sequence (<= 25) of USERAUTH_REQUESTs over usernames
-{a, b, ""}, services {ssh-connection, ssh-userauth, x}, methods {none, password, password-change,
-publickey probe, publickey with a valid signature, keyboard-interactive}; either one by one
+A raw puppet client sends a generated sequence (<= 40) of authentication messages: USERAUTH_REQUESTs
+over usernames {a, b, ""}, services {ssh-connection, ssh-userauth, x}, methods {none, password,
+password-change, publickey probe, publickey with a valid signature, keyboard-interactive,
+gssapi-with-mic, gssapi-keyex (stub GSS context)} and USERAUTH_INFO_RESPONSEs; either one by one
 (reading the replies of each) or pipelined (all written back to back before anything is read).
+Multi-message exchanges are generated as blocks: a keyboard-interactive request that the
+application answers with an InteractiveQuery, then 1-3 INFO_RESPONSE rounds (application result
+per round: a further query / FAILED / PARTIAL / SUCCESSFUL) with 0-2 other requests (same or
+another username / service, any method) interleaved before every round. What the application
+answers to a keyboard-interactive request / an INFO_RESPONSE is carried by the message itself
+(submethods / first answer), so it does not depend on the order in which the server evaluates.
 
-Model (from the statement): the first username that is evaluated is pinned. A request naming
-another service, or another username, ends the connection: no callback for it, nobody
-authenticated. Every request answered with a non-partial USERAUTH_FAILURE is a failed attempt;
-the tenth ends the connection. Once the connection has ended no credential is evaluated.
+Model (from the statement): the first username that is evaluated is pinned - for the whole
+connection, i.e. also across the messages of an exchange. A request naming another service, or
+another username, ends the connection: no callback for it, nobody authenticated. Every FAILED
+result is a failed attempt, whichever message delivered it (the answer to a request or to an
+INFO_RESPONSE); the tenth ends the connection. Once the connection has ended no credential is
+evaluated. A gssapi-with-mic request (GSS enabled) opens an exchange and is neither a failure nor
+a success; an INFO_RESPONSE directly behind it would be read as a GSS token and is not sent.
 
 Oracle clauses (each with its own signature):
  other-username-evaluated        a callback received a username different from the pinned one
@@ -31,92 +41,173 @@ PROPERTY = "C16"
 LEVEL = "exploration"
 THOROUGH_WORKERS = 16
 RULE = (
-    "hypothesis-generated request sequences (1..25) over 3 usernames x 3 services x 6 methods with generated callback verdicts "
-    "(FAILED/PARTIAL/SUCCESSFUL per method and password), three program styles (grinding one user towards the failure cap, "
-    "username switches, fully mixed), each run one-by-one or pipelined; compared with a model of the statement; non-trivial = the "
-    "model reaches a username switch, a foreign service or ten failures; distinct by (policy, mode, sequence)"
+    "hypothesis-generated message sequences (1..40) over 3 usernames x 3 services x 8 methods (incl. gssapi-with-mic / gssapi-keyex "
+    "on a stub context) plus INFO_RESPONSE messages, with generated callback verdicts (FAILED/PARTIAL/SUCCESSFUL per method and "
+    "password; per message for keyboard-interactive requests and INFO_RESPONSEs, incl. further InteractiveQuery rounds); sequences are "
+    "built from single requests and from whole keyboard-interactive exchanges (request + 1..3 rounds, 0..2 other requests interleaved "
+    "before each round); three program styles (grinding one user towards the failure cap, username switches, fully mixed), each run "
+    "one-by-one or pipelined; compared with a model of the statement that counts a FAILED result whichever message delivered it; "
+    "non-trivial = the model reaches a username switch, a foreign service or ten failures; distinct by (policy, mode, sequence)"
 )
 
 RES = {"F": peers.AUTH_FAILED, "P": peers.AUTH_PARTIALLY_SUCCESSFUL, "S": peers.AUTH_SUCCESSFUL}
-METHODS = ["none", "password", "pwchange", "pkprobe", "pksigned", "kbd"]
+METHODS = ["none", "password", "pwchange", "pkprobe", "pksigned", "kbd", "gssmic", "keyex"]
 SERVICES = ["ssh-connection", "ssh-userauth", "x"]
 USERS = ["a", "b", ""]
-CB = {"none": "check_auth_none", "password": "check_auth_password", "pkprobe": "check_auth_publickey", "pksigned": "check_auth_publickey", "kbd": "check_auth_interactive"}
+CB = {
+    "none": "check_auth_none",
+    "password": "check_auth_password",
+    "pkprobe": "check_auth_publickey",
+    "pksigned": "check_auth_publickey",
+    "kbd": "check_auth_interactive",
+    "keyex": "check_auth_gssapi_keyex",
+    "resp": "check_auth_interactive_response",
+}
+CRED_CBS = frozenset(CB.values())
+MAXLEN = 40
 
 
 # ----------------------------------------------------------------------------- generator
 
 
-def req_st(users, services, methods):
-    return st.fixed_dictionaries({"u": users, "svc": services, "m": methods, "pw": st.sampled_from(["good", "bad"])})
+def req_st(users, services, methods, kbd_r):
+    return st.fixed_dictionaries({"u": users, "svc": services, "m": methods, "pw": st.sampled_from(["good", "bad"]), "r": kbd_r})
+
+
+def resp_st(r):
+    return st.fixed_dictionaries({"m": st.just("resp"), "r": r, "n": st.integers(0, 2)})
 
 
 def policy_st(weights):
     r = st.sampled_from(weights)
-    return st.fixed_dictionaries({"none": r, "password": st.fixed_dictionaries({"good": r, "bad": r}), "pk": r, "kbd": r})
+    return st.fixed_dictionaries({"none": r, "password": st.fixed_dictionaries({"good": r, "bad": r}), "pk": r, "keyex": r})
+
+
+@st.composite
+def exchange(draw, opener, between, final):
+    """A keyboard-interactive exchange as a flat list: request (application answers with a query),
+    then 1-3 rounds of [0-2 interleaved requests] + INFO_RESPONSE (non-final rounds: a further query)."""
+    first = dict(draw(opener), m="kbd", r="query")
+    out = [first]
+    n = draw(st.integers(1, 3))
+    for j in range(n):
+        out += draw(st.lists(between, max_size=2))
+        out.append({"m": "resp", "r": "query" if j < n - 1 else draw(final), "n": draw(st.integers(0, 2))})
+    return out
+
+
+def _flat(blocks):
+    return [x for b in blocks for x in (b if isinstance(b, list) else [b])][:MAXLEN]
 
 
 @st.composite
 def cases(draw):
-    style = draw(st.sampled_from(["grind", "grind", "switch", "mixed"]))
+    style = draw(st.sampled_from(["grind", "grind", "grind-requests-only", "switch", "switch", "mixed"]))
     meth = st.sampled_from(METHODS)
-    if style == "grind":
+    if style == "grind-requests-only":
         user = draw(st.sampled_from(USERS))
         pol = draw(policy_st(["F", "F", "F", "F", "P"]))
-        main = req_st(st.just(user), st.just("ssh-connection"), meth)
-        odd = req_st(st.sampled_from(USERS), st.sampled_from(SERVICES), meth)
-        reqs = draw(st.lists(main, min_size=9, max_size=22))
-        tail = draw(st.lists(st.one_of(main, main, odd), max_size=3))
-        reqs = reqs + tail
+        r = st.sampled_from(["F", "F", "F", "P"])
+        main = req_st(st.just(user), st.just("ssh-connection"), meth, r)
+        odd = req_st(st.sampled_from(USERS), st.sampled_from(SERVICES), meth, r)
+        reqs = draw(st.lists(main, min_size=9, max_size=22)) + draw(st.lists(st.one_of(main, main, odd), max_size=3))
+    elif style == "grind":
+        user = draw(st.sampled_from(USERS))
+        pol = draw(policy_st(["F", "F", "F", "F", "P"]))
+        r = st.sampled_from(["F", "F", "F", "P", "query"])
+        main = req_st(st.just(user), st.just("ssh-connection"), meth, r)
+        odd = req_st(st.sampled_from(USERS), st.sampled_from(SERVICES), meth, r)
+        xch = exchange(main, main, r)
+        reqs = _flat(draw(st.lists(st.one_of(main, main, main, main, resp_st(r), xch, xch), min_size=7, max_size=18)))
+        tail = _flat(draw(st.lists(st.one_of(main, main, odd, resp_st(r)), max_size=3)))
+        reqs = (reqs + tail)[:MAXLEN]
     elif style == "switch":
         pol = draw(policy_st(["F", "P", "P", "S"]))
+        r = st.sampled_from(["F", "P", "P", "S", "query"])
         u1 = draw(st.sampled_from(USERS))
-        main = req_st(st.just(u1), st.just("ssh-connection"), meth)
-        other = req_st(st.sampled_from(USERS), st.sampled_from(["ssh-connection", "ssh-connection", "ssh-userauth"]), meth)
-        reqs = draw(st.lists(st.one_of(main, main, main, other), min_size=2, max_size=14))
+        main = req_st(st.just(u1), st.just("ssh-connection"), meth, r)
+        other = req_st(st.sampled_from(USERS), st.sampled_from(["ssh-connection", "ssh-connection", "ssh-connection", "ssh-connection", "ssh-userauth"]), meth, r)
+        any_ = st.one_of(main, main, main, other)
+        xch = exchange(main, any_, r)
+        reqs = _flat(draw(st.lists(st.one_of(any_, any_, any_, any_, resp_st(r), xch, xch), min_size=2, max_size=12)))
     else:
         pol = draw(policy_st(["F", "P", "S"]))
-        reqs = draw(st.lists(req_st(st.sampled_from(USERS), st.sampled_from(SERVICES), meth), min_size=1, max_size=25))
-    return {"policy": pol, "pipelined": draw(st.booleans()), "reqs": reqs}
+        r = st.sampled_from(["F", "P", "S", "query"])
+        any_ = req_st(st.sampled_from(USERS), st.sampled_from(SERVICES), meth, r)
+        reqs = _flat(draw(st.lists(st.one_of(any_, any_, any_, any_, resp_st(r), exchange(any_, any_, r), exchange(any_, any_, r)), min_size=1, max_size=20)))
+    return {"policy": pol, "gss": draw(st.booleans()), "pipelined": draw(st.booleans()), "reqs": reqs}
 
 
 # ----------------------------------------------------------------------------- model
 
 
+def verdict_of(pol, rq):
+    """What the application answers to this message (None: no callback is responsible)."""
+    m = rq["m"]
+    if m in ("kbd", "resp"):
+        return rq.get("r") or pol.get("kbd", "F")
+    if m == "pwchange":
+        return None
+    if m == "password":
+        return pol["password"][rq["pw"]]
+    if m.startswith("pk"):
+        return pol["pk"]
+    return pol.get(m, "F")
+
+
 def model(case):
-    """Per request: dict(cbs=[(name, user)], dead=bool after it, cause=None|'service'|'username'|'cap',
-    authed=bool after it, sent=bool). Requests behind the end of the connection / a success are
-    expected to cause nothing."""
+    """Per message: dict(cbs=[(name, user)], dead=bool after it, cause=None|'service'|'username'|'cap',
+    authed=bool after it, skip=bool (not sent at all), opens=bool (gssapi-with-mic exchange opened: the
+    reply is GSSAPI_RESPONSE and the next packet must be a request), by=None|'request'|'info-response'
+    (which kind of message delivered a counted failure), after_open=bool (first request behind an open
+    gssapi-with-mic exchange: how the server's GSS handler passes it on is outside the statement - the
+    tree under test ends the session there with a TypeError - so only the safety clauses apply from
+    there on). Messages behind the end of the connection / a success are expected to cause nothing."""
     pol = case["policy"]
+    gss = bool(case.get("gss"))
     pinned = None
     fails = 0
     dead = False
     authed = False
+    gss_open = False
     out = []
     for rq in case["reqs"]:
-        e = {"cbs": [], "cause": None, "live": not dead and not authed}
-        if dead or authed:
+        e = {"cbs": [], "cause": None, "live": not dead and not authed, "skip": False, "opens": False, "by": None, "after_open": gss_open}
+        m = rq["m"]
+        v = None
+        if m == "resp" and gss_open:
+            e["skip"] = True
+        elif dead or authed:
             pass
+        elif m == "resp":
+            e["cbs"].append((CB["resp"], None))
+            v = verdict_of(pol, rq)
         elif rq["svc"] != "ssh-connection":
             dead, e["cause"] = True, "service"
         elif pinned is not None and rq["u"] != pinned:
             dead, e["cause"] = True, "username"
         else:
             pinned = rq["u"]
-            m = rq["m"]
-            if m == "pwchange":
+            gss_open = False
+            if m in ("gssmic", "keyex") and not gss:
+                e["cbs"].append((CB["none"], rq["u"]))
+                v = pol["none"]
+            elif m == "gssmic":
+                gss_open = e["opens"] = True
+            elif m == "pwchange":
                 v = "F"
             else:
                 e["cbs"].append((CB[m], rq["u"]))
-                v = pol["password"][rq["pw"]] if m == "password" else pol["pk" if m.startswith("pk") else m]
+                v = verdict_of(pol, rq)
                 if m == "pkprobe" and v != "F":
                     v = "PKOK"
-            if v == "F":
-                fails += 1
-                if fails >= 10:
-                    dead, e["cause"] = True, "cap"
-            elif v == "S":
-                authed = True
+        if v == "F":
+            fails += 1
+            e["by"] = "info-response" if m == "resp" else "request"
+            if fails >= 10:
+                dead, e["cause"] = True, "cap"
+        elif v == "S":
+            authed = True
         e["dead"], e["authed"], e["fails"], e["pinned"] = dead, authed, fails, pinned
         out.append(e)
     return out
@@ -124,24 +215,49 @@ def model(case):
 
 # ----------------------------------------------------------------------------- execution
 
+PLAN = "plan:"
 
-def make_policy(pol):
+
+def make_policy(case):
+    from paramiko.server import InteractiveQuery
+
+    pol = case["policy"]
+
+    def planned(text):
+        """The application's answer is dictated by the message: 'plan:<F|P|S|query>'."""
+        if isinstance(text, bytes):
+            text = text.decode("utf-8", "replace")
+        r = text[len(PLAN) :] if isinstance(text, str) and text.startswith(PLAN) else "F"
+        if r == "query":
+            return InteractiveQuery("verif", "answer", ("Password: ", False))
+        return RES.get(r, peers.AUTH_FAILED)
+
     return {
         "check_auth_none": RES[pol["none"]],
         "check_auth_password": lambda u, p: RES[pol["password"].get(p, "F")],
         "check_auth_publickey": RES[pol["pk"]],
-        "check_auth_interactive": lambda u, s: RES[pol["kbd"]],
+        "check_auth_interactive": lambda u, sub: planned(sub),
+        "check_auth_interactive_response": lambda responses: planned(responses[0] if responses else ""),
+        "check_auth_gssapi_keyex": lambda u, g: RES[pol.get("keyex", "F")],
+        "enable_auth_gssapi": bool(case.get("gss")),
     }
 
 
-def payload(s, rq):
-    u, svc, m = rq["u"], rq["svc"], rq["m"]
+def payload(s, rq, pol):
+    m = rq["m"]
+    if m == "resp":
+        return A.info_response([PLAN + verdict_of(pol, rq)] + ["x"] * rq.get("n", 0))
+    u, svc = rq["u"], rq["svc"]
     if m == "none":
         return A.req_none(u, svc)
     if m == "password":
         return A.req_password(u, rq["pw"], svc)
     if m == "pwchange":
         return A.req_password(u, rq["pw"], svc, new_password="new")
+    if m == "gssmic":
+        return A.req_gss_mic(u, (A.KRB5_OID,), svc)
+    if m == "keyex":
+        return A.req_gss_keyex(u, b"mic-token", svc)
     kb = A.pub_blob("ed25519")
     if m == "pkprobe":
         return A.req_pk_probe(u, "ssh-ed25519", kb, svc)
@@ -149,10 +265,53 @@ def payload(s, rq):
         # a genuinely valid signature for exactly this request (whatever service/user it names)
         sig = A.sign("ed25519", "ssh-ed25519", A.session_blob(s.sid, u.encode(), svc.encode(), b"ssh-ed25519", kb))
         return A.req_pk_signed(u, "ssh-ed25519", kb, sig, svc)
-    return A.req_kbdint(u, b"", svc)
+    # RFC 4256: string language tag (deprecated, free-form), string submethods. paramiko hands the FIRST of
+    # the two to check_auth_interactive as "submethods": the plan is put in both
+    plan = (PLAN + verdict_of(pol, rq)).encode()
+    return peers.m_userauth_request(u.encode("utf-8"), svc.encode("utf-8"), b"keyboard-interactive", R.string(plan) + R.string(plan))
 
 
-USER_CBS = ("check_auth_none", "check_auth_password", "check_auth_publickey", "check_auth_interactive", "get_allowed_auths")
+USER_CBS = ("check_auth_none", "check_auth_password", "check_auth_publickey", "check_auth_interactive", "check_auth_gssapi_keyex", "check_auth_gssapi_with_mic", "get_allowed_auths")
+
+
+def _desc(rq):
+    return ("INFO_RESPONSE", rq.get("r")) if rq["m"] == "resp" else (rq["u"], rq["svc"], rq["m"]) + ((rq.get("r"),) if rq["m"] == "kbd" else ())
+
+
+def evidence_classes(case, mdl, classes):
+    """Which of the generated dimensions the (modelled) history really exercised."""
+    live = [(rq, e) for rq, e in zip(case["reqs"], mdl) if e["live"] and not e["skip"]]
+    for rq, e in live:
+        if e["by"]:
+            classes.add("failure-delivered-by:" + e["by"])
+        if e["cause"] == "cap":
+            by = set(x["by"] for _, x in live if x["by"])
+            classes.add("model:cap-reached-by:" + "+".join(sorted(by)))
+        if e["opens"]:
+            classes.add("gssapi-with-mic-exchange-opened")
+        if rq["m"] == "keyex" and case.get("gss"):
+            classes.add("gssapi-keyex-evaluated")
+    # keyboard-interactive exchanges: rounds judged, requests interleaved, how they ended
+    rounds = between = None
+    for rq, e in live:
+        m = rq["m"]
+        if m == "resp":
+            if rounds is None:
+                classes.add("info-response-without-open-exchange")
+                continue
+            rounds += 1
+            if rq.get("r") != "query":
+                classes.add("kbd-exchange:rounds=%d" % rounds)
+                if between:
+                    classes.add("kbd-exchange:interleaved-requests=%d" % min(between, 3))
+                rounds = None
+        else:
+            if rounds is not None:
+                between += 1
+                if e["cause"] in ("username", "service"):
+                    classes.add("model:%s-change-inside-kbd-exchange" % e["cause"])
+            if m == "kbd" and e["cbs"] and rq.get("r") == "query":
+                rounds, between = 0, 0
 
 
 def run_case(ctx, case, record=True):
@@ -164,15 +323,21 @@ def run_case(ctx, case, record=True):
     for c in causes:
         classes.add("model:" + c)
     classes.add("pipelined" if case["pipelined"] else "one-by-one")
+    classes.add("gss-enabled" if case.get("gss") else "gss-disabled")
     if any(e["authed"] for e in mdl):
         classes.add("model:success")
-    s = A.ServerSession(policy=make_policy(case["policy"]))
-    try:
-        _run(ctx, case, mdl, reqs, s, classes)
-    finally:
-        s.close()
-        if record:
-            ctx.case(case, nontrivial, sorted(classes))
+    evidence_classes(case, mdl, classes)
+    stub = A.GssStub({"mech_ok": True, "mic_ok": True})
+    with A.gss_installed(stub):
+        s = A.ServerSession(policy=make_policy(case), allowed="password,publickey,keyboard-interactive,gssapi-with-mic,gssapi-keyex,none")
+        try:
+            if case.get("gss"):
+                s.server.kexgss_ctxt = A.GssStub({"mic_ok": True})
+            _run(ctx, case, mdl, reqs, s, classes)
+        finally:
+            s.close()
+            if record:
+                ctx.case(case, nontrivial, sorted(classes))
 
 
 def _cut(case, n):
@@ -180,16 +345,17 @@ def _cut(case, n):
 
 
 def _check_block(ctx, case, mdl, lo, hi, calls, replies, dead, authed, s, wire):
-    """Requests lo..hi-1 were handed to the server; `calls` / `replies` are what they caused.
+    """Messages lo..hi-1 were handed to the server; `calls` / `replies` are what they caused.
     Returns False after reporting a violation."""
     last = mdl[hi - 1]
     pinned = last["pinned"]
-    detail = "requests %d..%d of %r (pipelined=%s): callbacks %r; replies %s; transport active=%s authenticated=%s; model after the block: dead=%s cause=%r fails=%d authed=%s" % (
+    detail = "messages %d..%d of %r (pipelined=%s, gss=%s): callbacks %r; replies %s; transport active=%s authenticated=%s; model after the block: dead=%s cause=%r failed-results=%d authed=%s" % (
         lo,
         hi - 1,
-        [(r["u"], r["svc"], r["m"]) for r in case["reqs"][lo:hi]],
+        [_desc(r) for r, e in zip(case["reqs"][lo:hi], mdl[lo:hi]) if not e["skip"]],
         case["pipelined"],
-        [(c[0], c[1][0]) for c in calls if c[0] in USER_CBS],
+        bool(case.get("gss")),
+        [(c[0], c[1][0]) for c in calls if c[0] in USER_CBS or c[0] in CRED_CBS],
         A.reply_kinds(replies),
         not dead,
         authed,
@@ -199,9 +365,9 @@ def _check_block(ctx, case, mdl, lo, hi, calls, replies, dead, authed, s, wire):
         last["authed"],
     )
     sub = _cut(case, hi)
-    # (a) callbacks only ever see the pinned username
+    # (a) callbacks only ever see the pinned username (None = an INFO_RESPONSE judged before any request)
     for c in calls:
-        if c[0] in USER_CBS and pinned is not None and c[1][0] != pinned:
+        if c[0] in USER_CBS and pinned is not None and c[1][0] is not None and c[1][0] != pinned:
             ctx.violation("other-username-evaluated", c[0], sub, detail)
             return False
     # wire bookkeeping
@@ -215,21 +381,26 @@ def _check_block(ctx, case, mdl, lo, hi, calls, replies, dead, authed, s, wire):
         elif t == 1:
             wire["disc"] = R.Reader(p).u32() if len(p) >= 4 else -1
     cause = next((e["cause"] for e in mdl[lo:hi] if e["cause"]), None)
+    # which kinds of message delivered the failures counted so far (root-cause specific bucket)
+    by = sorted(set(e["by"] for e in mdl[:hi] if e["by"]))
     # (b)(c)(d) the connection must have ended
     if last["dead"] and not dead:
         clause = {"service": "wrong-service-not-disconnected", "username": "username-switch-not-disconnected", "cap": "failure-cap-not-enforced"}[cause or "cap"]
-        ctx.violation(clause, "transport-still-active", sub, detail)
+        bucket = "transport-still-active"
+        if clause == "failure-cap-not-enforced" and by != ["request"]:
+            bucket += ":failures-delivered-by-" + "+".join(by)
+        ctx.violation(clause, bucket, sub, detail)
         return False
     if wire["fails"] > 10:
-        ctx.violation("failure-cap-not-enforced", "more-than-ten-failures-answered", sub, detail)
+        ctx.violation("failure-cap-not-enforced", "more-than-ten-failures-answered" + ("" if by == ["request"] else ":failures-delivered-by-" + "+".join(by)), sub, detail)
         return False
     # (f) nobody authenticated by/after a violation
     if authed and not last["authed"]:
         ctx.violation("authenticated-after-violation", cause or "no-approval", sub, detail)
         return False
     # (e) no credential evaluated behind the end
-    exp = [cb for e in mdl[lo:hi] for cb in e["cbs"]]
-    got = [(c[0], c[1][0]) for c in calls if c[0] in CB.values()]
+    exp = [cb for e in mdl[lo:hi] if not e["skip"] for cb in e["cbs"]]
+    got = [(c[0], None if c[0] == CB["resp"] else c[1][0]) for c in calls if c[0] in CRED_CBS]
     if last["dead"] and len(got) > len(exp):
         ctx.violation("credentials-evaluated-after-end", cause or "?", sub, detail + "; expected callbacks %r" % (exp,))
         return False
@@ -237,37 +408,54 @@ def _check_block(ctx, case, mdl, lo, hi, calls, replies, dead, authed, s, wire):
     if dead and not last["dead"] and wire.get("disc") == 14 and wire["fails"] < 10:
         ctx.violation("disconnect-before-ten-failures", "no-more-auth-methods", sub, "only %d non-partial failures were answered; " % wire["fails"] + detail)
         return False
-    if got != exp and not (dead and not last["dead"]):
+    if got != exp and not (dead and not last["dead"]) and not any(e["after_open"] for e in mdl[:hi]):
         ctx.inconc("callback-sequence-differs-from-model")
     return True
 
 
 def _run(ctx, case, mdl, reqs, s, classes):
     wire = {"fails": 0, "disc": None}
-    # requests behind a modelled success are not part of the statement: stop there
+    pol = case["policy"]
+    # messages behind a modelled success are not part of the statement: stop there
     stop = len(reqs)
     for i, e in enumerate(mdl):
         if e["authed"]:
             stop = i + 1
             break
+    while stop > 0 and mdl[stop - 1]["skip"]:
+        stop -= 1
+    if stop == 0:
+        return
     if case["pipelined"]:
         n0 = s.ncalls()
         sent = 0
         for i in range(stop):
-            if s._send(payload(s, reqs[i])) is None:
+            if mdl[i]["skip"]:
+                continue
+            if s._send(payload(s, reqs[i], pol)) is None:
                 break
             sent += 1
+        # (a sentinel behind an open gssapi-with-mic exchange ends the session: not a modelled end, tolerated below)
         r = s.exchange(None)
         if sent == 0:
             return
-        # every request was *offered*; those the link refused came after the server had closed it
+        # every message was *offered*; those the link refused came after the server had closed it
         ok = _check_block(ctx, case, mdl, 0, stop, s.calls_since(n0), r.replies, r.dead, s.authed(), s, wire)
         if ok and r.dead:
             classes.add("ended")
         return
     for i in range(stop):
+        if mdl[i]["skip"]:
+            continue
         n0 = s.ncalls()
-        r = s.exchange(payload(s, reqs[i]))
+        if mdl[i]["opens"]:
+            # the server now restricts the next packet type: no sentinel behind this request
+            r = s.exchange(payload(s, reqs[i], pol), sentinel=False, expect=1)
+            if r.sent and (r.dead or r.types() != [60]):
+                r2 = s.exchange(None)
+                r = A.Step(r.replies + r2.replies, r.dead or r2.dead)
+        else:
+            r = s.exchange(payload(s, reqs[i], pol))
         if not r.sent:
             return
         if not _check_block(ctx, case, mdl, i, i + 1, s.calls_since(n0), r.replies, r.dead, s.authed(), s, wire):
